@@ -66,12 +66,16 @@ def run(rep, tier, seed):
             tail = tail_variants(rnd)
             prog = [OBS_DECL] + base[2:] + [expr(call("puts", ident("OBS")))] + tail
             args = rnd.choice(ARGVS)
-            jobs.append({"id": i, "prog": prog, "args": args, "model": [OBS_DECL] + base[2:] + tail})
+            header = rnd.choice(["", "", "# a script\n", "// a script\n", "# line one\n# line two\n", "// one\n\n// two\n# three\n",
+                                 "\n", "#\n#\n", "# trailing blanks   \n\n\n"])
+            jobs.append({"id": i, "prog": prog, "args": args, "model": [OBS_DECL] + base[2:] + tail, "header": header})
 
         def runjob(j):
             src, _ = render(j["prog"])
             j["ap"] = render(j["model"])[1]        # the reference semantics runs the program without the print statement
-            text = "puts(argv);\n" + src
+            # scripts usually open with comment lines (right under the shebang line when there is one)
+            header = j["header"]
+            text = header + "puts(argv);\n" + src
             # line numbers of the annotated program refer to src; the argv line shifts all modes alike
             path = os.path.join(d, "s%d.p2" % j["id"])
             spath = os.path.join(d, "h%d.p2" % j["id"])
@@ -160,7 +164,8 @@ def run(rep, tier, seed):
         rep.notes["echo_classes"] = echoes
         rep.cov["distinct_nontrivial"] = len({(render(j["prog"])[0], tuple(j["args"])) for j in jobs})
         rep.cov["rule"] = ("random programs (1-4 statements, printing their observations) with 9 kinds of final statement (null, integer, "
-                           "boolean, string, array, let, runtime failure, compile failure, builtin call) x 10 argument vectors x 3 "
+                           "boolean, string, array, let, runtime failure, compile failure, builtin call) x 9 kinds of leading comment / "
+                           "blank lines x 10 argument vectors x 3 "
                            "modes; distinct = distinct (program, arguments)")
         rep.cov["exhaustive"] = False
         rep.sample({"program": render(jobs[0]["prog"])[0], "args": jobs[0]["args"], "cmd_stdout": jobs[0]["cmd"]["out"].decode("utf8", "replace")[-200:]})
